@@ -60,6 +60,9 @@ def chart_spec(draw, max_states=12, max_sigs=4, with_guards=True, with_actions=F
   kinds = ["pass", "pass", "handle", "trans", "trans", "trans", "decline"]
   if with_guards:
     kinds.append("guard")
+  if draw(st.booleans()):
+    # sparse charts: most states name their parent, so events bubble several levels
+    kinds = kinds + ["pass"] * 8
   for i in range(n):
     r = {}
     for s in sigs:
@@ -85,16 +88,16 @@ def chart_spec(draw, max_states=12, max_sigs=4, with_guards=True, with_actions=F
   return spec
 
 
-ACTION_KINDS = ["post_fifo", "post_lifo", "defer", "recall", "scribble"]
+ACTION_KINDS = ["post_fifo", "post_lifo", "defer", "defer_e", "recall", "scribble"]
 
 
 @st.composite
-def actions_for(draw, spec, kinds=None, max_sites=6):
+def actions_for(draw, spec, kinds=None, max_sites=6, min_sites=0):
   """Handler-side actions attached to clauses.  Keys "i:ENTRY", "i:VA", ..."""
   kinds = kinds or ACTION_KINDS
   n = spec["n"]
   acts = {}
-  nsites = draw(st.integers(0, max_sites))
+  nsites = draw(st.integers(min_sites, max_sites))
   for _ in range(nsites):
     i = draw(st.integers(0, n - 1))
     keys = []
@@ -110,8 +113,13 @@ def actions_for(draw, spec, kinds=None, max_sites=6):
     key = "%d:%s" % (i, draw(st.sampled_from(keys)))
     lst = acts.setdefault(key, [])
     k = draw(st.sampled_from(kinds))
-    if k in ("post_fifo", "post_lifo"):
+    if k in ("post_fifo", "post_lifo", "defer"):
       lst.append([k, draw(st.sampled_from(spec["sigs"]))])
+    elif k == "defer_e":
+      if key.split(":")[1] in ("ENTRY", "EXIT", "INIT"):
+        lst.append(["defer", draw(st.sampled_from(spec["sigs"]))])
+      else:
+        lst.append([k])
     elif k == "scribble":
       lst.append([k, "note%d" % draw(st.integers(0, 3))])
     else:
@@ -120,11 +128,43 @@ def actions_for(draw, spec, kinds=None, max_sites=6):
 
 
 @st.composite
-def chart_case(draw, max_events=12, **kw):
+def guard_queries(draw, spec, max_sites=3):
+  """Guards that consult chart.is_in() before answering: an "is_in" action on
+  user-signal clauses (the clause's own outcome is unchanged)."""
+  acts = {}
+  for _ in range(draw(st.integers(0, max_sites))):
+    i = draw(st.integers(0, spec["n"] - 1))
+    keys = [s for s in spec["sigs"] if s in spec["react"][i]]
+    if keys:
+      acts.setdefault("%d:%s" % (i, draw(st.sampled_from(keys))), []).append(
+        ["is_in", draw(st.integers(0, spec["n"] - 1))])
+  return acts
+
+
+@st.composite
+def chart_case(draw, max_events=12, with_is_in=False, with_queries=False, **kw):
   spec = draw(chart_spec(**kw))
+  if with_is_in:
+    spec["acts"] = draw(guard_queries(spec))
   start = draw(st.integers(0, spec["n"] - 1))
-  events = draw(st.lists(st.sampled_from(spec["sigs"]), max_size=max_events))
-  return {"spec": spec, "start": start, "events": events}
+  nev = draw(st.integers(0, max_events))
+  events = draw(st.lists(st.sampled_from(spec["sigs"]), min_size=nev, max_size=nev))
+  case = {"spec": spec, "start": start, "events": events}
+  if with_queries:
+    qs = {}
+    for k in range(nev):
+      if draw(st.integers(0, 3)) == 0:
+        qs[str(k)] = [[draw(st.sampled_from(["is_in", "child_state"])),
+                       draw(st.integers(-1, spec["n"] - 1))]
+                      for _ in range(draw(st.integers(1, 2)))]
+    case["queries"] = qs
+  return case
+
+
+def basic_action(rt, chart, e, i, key, a):
+  """Default handler-side action executor: only the side-effect-free query."""
+  if a[0] == "is_in":
+    chart.is_in(rt.fns[a[1]])
 
 
 # --------------------------------------------------------------------------
@@ -152,11 +192,16 @@ class Runtime:
     self.on_action = on_action
     self.budget = budget
     self.keep_raw = False
+    self.offer_payloads = []     # payload of each event at its first offer of a step
+    self.actlog = []             # what handler-side actions did, in order
+    self.ids = None              # shared id counter (list of one int) for posted events
 
   def clear(self):
     del self.log[:]
     del self.offers[:]
     del self.raw[:]
+    del self.offer_payloads[:]
+    del self.actlog[:]
 
 
 def build(spec, decorate=None, on_action=None, budget=30):
@@ -164,7 +209,7 @@ def build(spec, decorate=None, on_action=None, budget=30):
   from miros.event import signals, return_status
   from miros.hsm import spy_on as deco
 
-  rt = Runtime(spec, on_action, budget)
+  rt = Runtime(spec, on_action or basic_action, budget)
   if decorate is None:
     decorate = spec.get("spy", False)
   parent, init, react = spec["parent"], spec["init"], spec["react"]
@@ -172,7 +217,6 @@ def build(spec, decorate=None, on_action=None, budget=30):
   acts = spec.get("acts") or {}
   ENTRY, EXIT, INIT = signals.ENTRY_SIGNAL, signals.EXIT_SIGNAL, signals.INIT_SIGNAL
   REFL = signals.REFLECTION_SIGNAL
-  INNER = set(v for k, v in list(signals.items())[:10])
   signums = {}
   for s in spec["sigs"]:
     signals.append(s)
@@ -214,6 +258,7 @@ def build(spec, decorate=None, on_action=None, budget=30):
     elif sig in signums:
       name = signums[sig]
       rt.offers.append((i, name))
+      rt.offer_payloads.append(e.payload)
       r = react[i].get(name)
       if r is not None:
         k = r[0]
